@@ -10,6 +10,8 @@
    blob before or after it rewrites index.json).  The theorems are stated for the model
    of the CURRENT source; they stop checking when the source order changes. *)
 From Oras Require Import Base.Prelude Generated.GC10 Model.OciCrash Model.OciCrashSpec Proofs.OciCrash.
+From Oras Require Model.OciGC Proofs.OciGC.
+From Oras Require Import Proofs.OciCrashGC.
 
 (* For every digest/size verification function H, every iteration order of saveIndex,
    every history h of completed Push/Tag/Untag/Delete/SaveIndex operations on a freshly
@@ -130,6 +132,53 @@ Theorem C10_gc_crash_safe :
        read_index fsk = read_index (sfs (run_op H shuffle src_inplace src_unlink_first true s (Forget live)))).
 Proof. exact gc_crash_safe_src. Qed.
 Print Assumptions C10_gc_crash_safe.
+
+(* Bridge to C09 (Model/OciGC.v: WHAT Delete-with-AutoGC and GC remove, proved exact there).  The
+   hypotheses of the two theorems above are derived from C09's characterisation of the removed
+   sets, for every enumeration of them, given only that the two models agree on which nodes
+   carry a reference name (node n of the C09 model = blob N.of_nat n here):
+   the nodes C09's Delete removes besides its target ([Gone]) ... *)
+Theorem C10_cascade_of_gc_model :
+  forall (H : list N -> N) (shuffle : nat -> list entry -> list entry),
+    (forall c l e, In e (shuffle c l) <-> In e l) ->
+    forall succ subject manifest (g : Oras.Model.OciGC.state) (x : nat) (h : list hop) (xs : list nat) (k : nat),
+      let s := runc H shuffle src_inplace src_unlink_first true h init in
+      names_agree g s ->
+      (forall y, In y xs -> Oras.Proofs.OciGC.Gone succ subject manifest g x y /\ y <> x) ->
+      let os := Delete (N.of_nat x) :: map Delete (map N.of_nat xs) in
+      let fsk := crash_seq H shuffle src_inplace src_unlink_first true s os k in
+      same_tags fsk (sfs s) \/ same_tags fsk (sfs (run H shuffle src_inplace src_unlink_first true os s)).
+Proof. exact cascade_of_gc_model_src. Qed.
+Print Assumptions C10_cascade_of_gc_model.
+
+(* ... and the stored nodes outside C09's live set ([Live]) that GC sweeps. *)
+Theorem C10_gc_of_gc_model :
+  forall (H : list N -> N) (shuffle : nat -> list entry -> list entry),
+    (forall c l e, In e (shuffle c l) <-> In e l) ->
+    forall succ subject manifest (g : Oras.Model.OciGC.state) (h : list hop) (live : list N) (xs : list nat) (k : nat),
+      let s := runc H shuffle src_inplace src_unlink_first true h init in
+      names_agree g s ->
+      (forall z, In z live -> exists n, z = N.of_nat n /\ Oras.Proofs.OciGC.Live succ subject manifest g n) ->
+      (forall y, In y xs -> In y (Oras.Model.OciGC.blobs g) /\ ~ Oras.Proofs.OciGC.Live succ subject manifest g y) ->
+      let os := gc_ops live (map N.of_nat xs) in
+      let fsk := crash_seq H shuffle src_inplace src_unlink_first true s os k in
+      same_tags fsk (sfs s) /\
+      (read_index fsk = read_index (sfs s) \/
+       read_index fsk = read_index (sfs (run_op H shuffle src_inplace src_unlink_first true s (Forget live)))).
+Proof. exact gc_of_gc_model_src. Qed.
+Print Assumptions C10_gc_of_gc_model.
+
+(* the agreement hypothesis is satisfiable (a layer and a tagged manifest in both models) *)
+Example C10_names_agree_example :
+  let Hf := fun c : list N => match c with [7] => 1 | [9] => 2 | _ => 0 end in
+  let s := runc Hf (fun _ l => l) src_inplace src_unlink_first true
+             [Done (Push 1 [7] false); Done (Push 2 [9] true); Done (Tag 2 5)] init in
+  let g := {| Oras.Model.OciGC.blobs := [1; 2]%nat;
+              Oras.Model.OciGC.idx := [(Oras.Model.OciGC.RDig 2, 2%nat); (Oras.Model.OciGC.RTag 5, 2%nat)];
+              Oras.Model.OciGC.gnodes := [1; 2]%nat; Oras.Model.OciGC.strays := [];
+              Oras.Model.OciGC.autogc := true |} in
+  names_agree g s /\ read_index (sfs s) = Some [(2, Some 5)].
+Proof. exact names_agree_example. Qed.
 
 (* the tag mapping a reader derives from index.json is the one before or the one after *)
 Theorem C10_tag_mapping_before_or_after :
